@@ -55,15 +55,32 @@ static void pool_end(void){
 #ifndef NOPS
 #define NOPS 7
 #endif
+#ifdef OP0
+#ifndef OP1
+#define OP1 0
+#endif
+#ifndef OP2
+#define OP2 0
+#endif
+#ifndef OP3
+#define OP3 0
+#endif
+#ifndef OP4
+#define OP4 0
+#endif
+#ifndef OP5
+#define OP5 0
+#endif
+#endif
 
-typedef struct { u64 n; u32 d[OUTCAP]; } mv_t;
+typedef struct { u64 n; u32 d[OUTCAP]; u64 hw; } mv_t;      /* hw: high-water mark of the size (only used to describe the region of a pending finding) */
 static void m_resize(mv_t* m, u64 n){           /* std::vector::resize: new elements are value-initialised; bounded kind: refused beyond capacity */
   if (BOUNDED && n > CAPS) return;
   for (u64 i = 0; i < OUTCAP; i++) if (i >= m->n && i < n) m->d[i] = 0;
-  m->n = n;
+  m->n = n; if (n > m->hw) m->hw = n;
 }
-static void m_push(mv_t* m, u32 v){ if (BOUNDED && m->n + 1 > CAPS) return; if (m->n < OUTCAP) m->d[m->n] = v; m->n++; }
-static void m_assign(mv_t* m, const mv_t* o){ mv_t c = *o; *m = c; }
+static void m_push(mv_t* m, u32 v){ if (BOUNDED && m->n + 1 > CAPS) return; if (m->n < OUTCAP) m->d[m->n] = v; m->n++; if (m->n > m->hw) m->hw = m->n; }
+static void m_assign(mv_t* m, const mv_t* o){ u64 hw = m->hw > o->n ? m->hw : o->n; mv_t c = *o; *m = c; m->hw = hw; }
 
 /* concrete prefixes PRE0 / PRE1 (per-query constants, see the kernel): the objects start the symbolic steps in a chosen reachable state */
 #ifndef PRE0
@@ -85,15 +102,26 @@ static void m_prefix(mv_t* m, int code, const u32* pv){
 }
 void h_hist(void){
   u8 ops[K], tgt[K]; u64 n[K]; u32 v[K], pv0[5], pv1[5];
-  mv_t m[2]; m[0].n = 0; m[1].n = 0;
+  mv_t m[2]; m[0].n = 0; m[1].n = 0; m[0].hw = 0; m[1].hw = 0;
   for (int i = 0; i < OUTCAP; i++){ m[0].d[i] = 0; m[1].d[i] = 0; }
   for (int i = 0; i < 5; i++){ pv0[i] = in_any32(); pv1[i] = in_any32(); }
   m_prefix(&m[0], PRE0, pv0); m_prefix(&m[1], PRE1, pv1);
   for (int s = 0; s < K; s++){
     ops[s] = in_u8(0, NOPS - 1); tgt[s] = in_u8(0, 1); n[s] = in_u64(0, RMAX); v[s] = in_any32();
+#ifdef OP0          /* the operation sequence as per-query constants (enumerated over the whole alphabet by the spec); targets and arguments stay symbolic */
+    { static const u8 fixed_ops[6] = { OP0, OP1, OP2, OP3, OP4, OP5 }; ASSUME(ops[s] == fixed_ops[s]); ops[s] = fixed_ops[s]; }
+#endif
     mv_t* me = &m[tgt[s]]; mv_t* other = &m[tgt[s] ^ 1];
 #ifdef KF_C19_STATIC_RESIZE_STALE
-    ASSUME(!(ops[s] == 1 && n[s] > me->n && me->n < CAPS));   /* a growing resize while the bounded buffer is in use exposes whatever the cells held before */
+    ASSUME(!(ops[s] == 1 && n[s] > me->n && me->n < me->hw && me->n < CAPS));   /* a growing resize of the in-place (bounded) buffer after the object has been longer: the exposed cells keep their old values */
+#endif
+#if KIND == 0
+#ifdef KF_C19_VECTOR_SIZED_CTOR_UNINIT
+    ASSUME(!(ops[s] == 6 && n[s] > 0));     /* utl::vector(N), N > 0: the N cells are never initialised */
+#endif
+#ifdef KF_C19_VECTOR_ZERO_LEAK
+    ASSUME(!(ops[s] == 6 && n[s] == 0));    /* utl::vector(0): the malloc(0) block is never freed */
+#endif
 #endif
     switch (ops[s]){
       case 0: m_push(me, v[s]); break;
@@ -104,7 +132,7 @@ void h_hist(void){
       case 5: m_assign(me, other); break;                            /* copy-construct, then assign the copy */
       default:
         ASSUME(!BOUNDED || n[s] <= CAPS);                            /* a bounded vector cannot be constructed beyond its capacity (see h_ctor) */
-        { mv_t c; c.n = 0; for (int i = 0; i < OUTCAP; i++) c.d[i] = 0; c.n = n[s]; m_assign(me, &c); } break;
+        { mv_t c; c.hw = 0; for (int i = 0; i < OUTCAP; i++) c.d[i] = 0; c.n = n[s]; m_assign(me, &c); } break;
     }
   }
   u32 o0[OUTCAP], o1[OUTCAP]; u64 n0 = 99, n1 = 99;
